@@ -260,3 +260,23 @@ Proof.
   split; [|reflexivity]. intros t defs H. unfold reg0 in H. cbn [reg_find] in H.
   destruct (130 =? t); [discriminate|]. destruct (131 =? t); [|discriminate]. inversion H. vm_compute. discriminate.
 Qed.
+
+(* ---------- the length limits the bounds above rest on, tied to the source text: the guards of the five length-prefixed
+   decoders REGENERATED from mpgameserver/serializable.py on every run (tools/py2v_bytes.py, Gen/SerKernels.v) *)
+From Gen Require SerKernels.
+From Proofs Require SerKernelsP.
+
+(* the statements between `length = deserialize_value(...)` and the first use of length, as written in the source, refuse
+   a non-integer with TypeError and a length above MAX_BYTES_LENGTH (str, bytes) / MAX_ARRAY_LENGTH (list, dict, set) with
+   ValueError BEFORE anything is read or allocated for it, and that is exactly the guard of the model's dec_len; the two
+   limits are the model's 2^20 and 2^14 *)
+Theorem C14_kernel_length_limits :
+  (SerKernels.gen_ser_MAX_BYTES_LENGTH = MAXB /\ SerKernels.gen_ser_MAX_ARRAY_LENGTH = MAXA) /\
+  ((forall b n, SerKernels.gen_deserialize_string_guard b n = SerKernelsP.guard_spec MAXB b n) /\
+   (forall b n, SerKernels.gen_deserialize_bytes_guard b n = SerKernelsP.guard_spec MAXB b n) /\
+   (forall b n, SerKernels.gen_deserialize_map_guard b n = SerKernelsP.guard_spec MAXA b n) /\
+   (forall b n, SerKernels.gen_deserialize_seq_guard b n = SerKernelsP.guard_spec MAXA b n) /\
+   (forall b n, SerKernels.gen_deserialize_set_guard b n = SerKernelsP.guard_spec MAXA b n)) /\
+  (forall (sub : M value) cap s, dec_len sub cap s = mbind sub (SerKernelsP.guard_M (SerKernelsP.guard_spec cap)) s).
+Proof. split; [exact SerKernelsP.gen_limits|]. split; [exact SerKernelsP.gen_guards|exact SerKernelsP.dec_len_is_guard]. Qed.
+Print Assumptions C14_kernel_length_limits.
